@@ -472,6 +472,26 @@ def check_generic(prop, tier, cfgs, n_quick, n_thorough, sigfun, stages, level="
                 sp = Program(len(progs), ss, root, label)
                 sp.port = None
                 progs.append(sp)
+        if prop == "C18" or (prop == "C01" and tier != "quick"):
+            # one client with more operations than any in the repository (its largest has 122); two minutes of rustc
+            from .wsdl_driver import free_port
+            ss = gen.generate(rng(prop, "many-operations"), gen.cfg_with(files=(1, 1), wsdl=True, quarantine=_quarantine([prop]), ops=(132, 136), complex_per_file=(0, 1),
+                                                                       simple_per_file=(0, 1), elements_per_file=(0, 0), attr_named_simple=False, avoid_nested_same_name=True,
+                                                                       headers=(0, 1), p_oneway=0.2, p_prelude_op_name=0.0))
+            ss.features.add("more-than-128-operations")
+            port = free_port()
+            ss.wsdl.location = f"http://127.0.0.1:{port}/many"
+            mp = Program(len(progs), ss, root, "many-operations")
+            mp.port = port
+            progs.append(mp)
+        if prop in ("C01", "C05"):
+            from .wsdl_driver import free_port
+            ss = gen_mini.two_header_parts_of_one_element_program()
+            port = free_port()
+            ss.wsdl.location = f"http://127.0.0.1:{port}/tokens"
+            tp = Program(len(progs), ss, root, "two-header-parts-of-one-element")
+            tp.port = port
+            progs.append(tp)
         if prop in ("C01", "C07"):
             from .wsdl_driver import free_port
             ss = gen_mini.derived_foreign_facets_program()
@@ -629,7 +649,7 @@ def wsdl_cfgs(q):
         # every special operation name in turn (names of prelude types, `new`, single-letter words, leading acronyms), each with a soapAction
         ("wsdl-opnames", gen.cfg_with(files=(1, 2), wsdl=True, quarantine=q, p_prelude_op_name=1.0, op_names_in_turn=True, p_soap_action=1.0, ops=(3, 4), complex_per_file=(0, 1),
                                       simple_per_file=(0, 1), elements_per_file=(0, 1), attr_named_simple=False, avoid_nested_same_name=True, p_inline_schemas=0.3)),
-        ("wsdl-headers", gen.cfg_with(files=(1, 3), wsdl=True, quarantine=q, headers=(1, 3), p_parts_attr=0.3, complex_per_file=(0, 1), p_part_element_cross=0.5, p_inline_schemas=0.4,
+        ("wsdl-headers", gen.cfg_with(files=(1, 3), wsdl=True, quarantine=q, headers=(1, 3), p_headers_share_element=1.0, p_parts_attr=0.3, complex_per_file=(0, 1), p_part_element_cross=0.5, p_inline_schemas=0.4,
                                       simple_per_file=(0, 2), elements_per_file=(0, 1), ops=(1, 3), attr_named_simple=False, avoid_nested_same_name=True)),
     ]
 
